@@ -135,6 +135,38 @@ where
     })
 }
 
+/// Like `stream_par`, for inputs of 64 KiB and more: a short G-STREAM with one huge printable
+/// run inserted (see `gen::huge_text`). Failures shrink through the generator's parameters (not
+/// byte-wise); the case file holds the bytes.
+pub fn huge_par<A: Strategy>(
+    sub: &str,
+    seed: u64,
+    total: u32,
+    cfg: crate::gen::StreamCfg,
+    aux: impl Fn() -> A + Sync,
+    body: impl Fn(&[u8], &A::Value, &mut Acc) -> Verdict + Sync,
+    aux_json: impl Fn(&A::Value) -> Value + Sync,
+) -> Vec<Acc>
+where
+    A::Value: Clone + std::fmt::Debug,
+{
+    use proptest::prelude::*;
+    let ascii = cfg.seven_bit;
+    prop_par(
+        sub,
+        seed,
+        total,
+        || {
+            (crate::gen::stream(crate::gen::StreamCfg { max_items: cfg.max_items.min(8), ..cfg }), crate::gen::huge_text(ascii), any::<u16>(), aux()).prop_map(|(mut items, big, frac, a)| {
+                crate::gen::insert_huge(&mut items, big, frac);
+                (crate::gen::render(&items), a)
+            })
+        },
+        |(bytes, a), acc| body(bytes, a, acc),
+        |(bytes, a)| serde_json::json!({"hex": crate::rt::hex(bytes), "length": bytes.len(), "aux": aux_json(a)}),
+    )
+}
+
 /// Generate `n` values from a strategy without running a property (used to
 /// build fixed input sets deterministically from the seed).
 pub fn sample_values<S: Strategy>(seed: u64, n: usize, strat: &S) -> Vec<S::Value> {
